@@ -56,66 +56,102 @@ func ruleLogOrderDelivery(c *Ctx) {
 		}
 		producers[f][fn] = true
 	}
-	winfo := w.Info()
-	ast.Inspect(w.Decl.Body, func(n ast.Node) bool {
-		if as, ok := n.(*ast.AssignStmt); ok {
-			if f, _ := appendedField(winfo, as); f != nil && isDetailsSlice(f.Type()) {
-				queues[f] = "filled by writeAOF"
-				addProducer(f, w.Obj)
-			}
+	// the seed queues: filled by writeAOF itself or by a function that only writeAOF (transitively) calls
+	for wf := range c.calledOnlyFrom("writeAOF") {
+		wfi := c.FuncOf(wf)
+		if wfi == nil || wfi.Decl.Body == nil {
+			continue
 		}
-		return true
-	})
+		winfo := wfi.Info()
+		ast.Inspect(wfi.Decl.Body, func(n ast.Node) bool {
+			if as, ok := n.(*ast.AssignStmt); ok {
+				if f, _ := appendedField(winfo, as); f != nil && isDetailsSlice(f.Type()) {
+					queues[f] = "filled by " + wf.Name()
+					addProducer(f, wf)
+				}
+			}
+			return true
+		})
+	}
 	if len(queues) == 0 {
-		c.und("seed-queue", w.Decl.Pos(), "writeAOF appends command details to no slice field: the hand-over to the live connections was not found")
+		c.und("seed-queue", w.Decl.Pos(), "writeAOF (with the helpers only it calls) appends command details to no slice field: the hand-over to the live connections was not found")
 		return
 	}
 	fns := c.AllFuncs("internal/server")
-	// derived queues: F2 = append(F2, x) where x was read from a queue element
+	// derived queues: F2 = append(F2, x) where x was read from a queue element. "Read from a queue element" travels
+	// through locals, through the result of a function that returns such an element, and into the parameter that
+	// receives it (popLive() / deliverLive(item) are still the hand-over).
+	fromQueue := map[types.Object]bool{}
+	returnsFromQueue := map[*types.Func]bool{}
+	var isFromQ func(info *types.Info, e ast.Expr) bool
+	isFromQ = func(info *types.Info, e ast.Expr) bool {
+		switch x := ast.Unparen(e).(type) {
+		case *ast.IndexExpr:
+			f := selField(info, x.X)
+			return f != nil && queues[f] != ""
+		case *ast.Ident:
+			return fromQueue[info.ObjectOf(x)]
+		case *ast.CallExpr:
+			f := callee(info, x)
+			return f != nil && returnsFromQueue[f]
+		}
+		return false
+	}
 	for changed := true; changed; {
 		changed = false
+		mark := func(o types.Object) {
+			if o != nil && !fromQueue[o] {
+				fromQueue[o] = true
+				changed = true
+			}
+		}
 		for _, fn := range fns {
 			info := fn.Info()
-			fromQueue := map[types.Object]bool{}
 			ast.Inspect(fn.Decl.Body, func(n ast.Node) bool {
-				as, ok := n.(*ast.AssignStmt)
-				if !ok {
-					return true
-				}
-				if len(as.Lhs) == len(as.Rhs) {
-					for i, r := range as.Rhs {
-						if ix, ok := ast.Unparen(r).(*ast.IndexExpr); ok {
-							if f := selField(info, ix.X); f != nil && queues[f] != "" {
-								if id, ok := ast.Unparen(as.Lhs[i]).(*ast.Ident); ok {
-									fromQueue[info.ObjectOf(id)] = true
+				switch x := n.(type) {
+				case *ast.RangeStmt:
+					if f := selField(info, x.X); f != nil && queues[f] != "" {
+						if id, ok := x.Value.(*ast.Ident); ok {
+							mark(info.ObjectOf(id))
+						}
+					}
+				case *ast.ReturnStmt:
+					for _, r := range x.Results {
+						if isFromQ(info, r) && !returnsFromQueue[fn.Obj] && enclosingFuncLit(c.Program, x) == nil {
+							returnsFromQueue[fn.Obj] = true
+							changed = true
+						}
+					}
+				case *ast.CallExpr:
+					if f := callee(info, x); f != nil && c.FuncOf(f) != nil {
+						if sig, ok := f.Type().(*types.Signature); ok {
+							for i, a := range x.Args {
+								if i < sig.Params().Len() && !sig.Variadic() && isFromQ(info, a) {
+									mark(sig.Params().At(i))
 								}
 							}
 						}
 					}
-				}
-				return true
-			})
-			ast.Inspect(fn.Decl.Body, func(n ast.Node) bool {
-				if rs, ok := n.(*ast.RangeStmt); ok {
-					if f := selField(info, rs.X); f != nil && queues[f] != "" {
-						if id, ok := rs.Value.(*ast.Ident); ok {
-							fromQueue[info.ObjectOf(id)] = true
+				case *ast.AssignStmt:
+					if len(x.Lhs) == len(x.Rhs) {
+						for i, r := range x.Rhs {
+							if isFromQ(info, r) {
+								if id, ok := ast.Unparen(x.Lhs[i]).(*ast.Ident); ok {
+									mark(info.ObjectOf(id))
+								}
+							}
 						}
 					}
-				}
-				as, ok := n.(*ast.AssignStmt)
-				if !ok {
-					return true
-				}
-				f, call := appendedField(info, as)
-				if f == nil || queues[f] != "" || !isDetailsSlice(f.Type()) {
-					return true
-				}
-				for _, a := range call.Args[1:] {
-					if id, ok := ast.Unparen(a).(*ast.Ident); ok && fromQueue[info.ObjectOf(id)] {
-						queues[f] = "receives elements of an ordered queue in " + funcName(fn.Obj)
-						addProducer(f, fn.Obj)
-						changed = true
+					f, call := appendedField(info, x)
+					if f == nil || queues[f] != "" || !isDetailsSlice(f.Type()) {
+						return true
+					}
+					for _, a := range call.Args[1:] {
+						if isFromQ(info, a) {
+							queues[f] = "receives elements of an ordered queue in " + funcName(fn.Obj)
+							addProducer(f, fn.Obj)
+							changed = true
+						}
 					}
 				}
 				return true
